@@ -360,14 +360,16 @@ class AttributeCollection(MutableMapping[int, Attribute]):
 
         attributes = cls().parse(data, negotiated)
 
-        if Attribute.CODE.INTERNAL_TREAT_AS_WITHDRAW in attributes:
-            return attributes
-
         if Attribute.CODE.AS_PATH in attributes and Attribute.CODE.AS4_PATH in attributes:
             attributes.merge_attributes()
 
         if Attribute.CODE.AGGREGATOR in attributes and Attribute.CODE.AS4_AGGREGATOR in attributes:
             attributes.merge_aggregator()
+
+        # treat-as-withdraw results are never cached; they are returned after the merges so that the
+        # attributes which are still reported are not rendered twice under one name
+        if Attribute.CODE.INTERNAL_TREAT_AS_WITHDRAW in attributes:
+            return attributes
 
         if Attribute.CODE.MP_REACH_NLRI not in attributes and Attribute.CODE.MP_UNREACH_NLRI not in attributes:
             cls.previous = data
